@@ -52,7 +52,8 @@ def required_cells(tier):
             "dangling:same-name-two-dirs", "dangling:same-name-both-forms", "dangling:site-reached-by-2+-commands",
             "unknown-directive:live", "unknown-directive:dead", "benign-directive:dead", "db:missing-file", "db:unknown-compiler",
             "db:unknown-flags", "control:no-warnings", "totals-compared", "memo:failure-then-success-elsewhere",
-            "db:unknown-flags>80-characters", "dangling:below-depth>=64", "db:unknown-implicit-option-from-user-configuration", "header-is-a-compile-command", "log-file-cannot-be-created:refused", "db:entry-repeated-exactly", "unknown-directive:after-form-feed", "db:missing-forced-include", "db:config-redefinition", "fixed:requested-names-with-blanks-category-words-apostrophes", "fixed:computed-include-of-an-undefined-macro"]
+            "db:unknown-flags>80-characters", "dangling:below-depth>=64", "db:unknown-implicit-option-from-user-configuration", "header-is-a-compile-command", "log-file-cannot-be-created:refused", "db:entry-repeated-exactly", "unknown-directive:after-form-feed", "db:missing-forced-include", "db:config-redefinition", "fixed:requested-names-with-blanks-category-words-apostrophes", "fixed:computed-include-of-an-undefined-macro",
+            "fixed:directive-on-the-closing-line-of-a-multi-line-comment"]
 
 
 def is_dangling(name):
@@ -498,11 +499,15 @@ def fixed_cli_scenarios(ctx, base):
       M  `#include PLATFORM_HEADER` where the macro is not defined for the platform (nothing a compiler accepts): the
          run may stop with an error, or warn with file and line -- it must not finish silently."""
     acc = ctx.acc
-    for name in ("N", "M"):
+    for name in ("N", "M", "L"):
         d = os.path.join(base, "fixedcli" + name)
         shutil.rmtree(d, ignore_errors=True)
         os.makedirs(d)
-        if name == "N":
+        if name == "L":
+            # the directive stands on the line on which a multi-line comment ENDS: that line is its line
+            text = "/* c\nmore */ #include \"nothere_l.h\"\nint a;\n#if 0 /* x\ny */ || 1\n#include <nothere_m.h>\n#endif\n  /* z\n */ #bogus directive\n" \
+                   "/*\n\n\n*/ /* */ #  include \"nothere_n.h\"\n"
+        elif name == "N":
             text = '#include "nothere system include.h"\n#include <nothere user include.h>\n#include "nothere it\'s.h"\n#include <o\'neil\'s nothere.h>\nint a;\n'
         else:
             text = "int a;\n#include PLATFORM_HEADER\nint b;\n"
@@ -520,7 +525,22 @@ def fixed_cli_scenarios(ctx, base):
         problems = []
         logs = json.load(open(dump))["logs"] if os.path.exists(dump) else []
         warnings_ = [m for lv, nm, m in logs if lv == "WARNING" and not re.match(r"^\d+ (warnings generated|user include files|system include files)", m)]
-        if name == "N":
+        if name == "L":
+            want = collections.Counter({("a.c", 2, "nothere_l.h", "user include"): 1, ("a.c", 6, "nothere_m.h", "system include"): 1, ("a.c", 13, "nothere_n.h", "user include"): 1})
+            got, dgot = collections.Counter(), collections.Counter()
+            for w in warnings_:
+                m = INC_RE.match(w.split("\n")[0])
+                if m:
+                    got[(os.path.relpath(m.group(1), os.path.realpath(d)), int(m.group(2)), m.group(4), m.group(3))] += 1
+                m = DIR_RE.match(w.split("\n")[0])
+                if m:
+                    dgot[int(m.group(2))] += 1
+            if got != want:
+                problems.append({"kind": "include warnings name another line than the one the directive stands on", "missing": sorted((want - got).items()), "extra": sorted((got - want).items())})
+            if dgot != collections.Counter({9: 1}):
+                problems.append({"kind": "unrecognized-directive warning names another line than the one the directive stands on", "expected": {9: 1}, "observed": dict(dgot)})
+            acc.cells["fixed:directive-on-the-closing-line-of-a-multi-line-comment"] += 1
+        elif name == "N":
             want = collections.Counter({("a.c", 1, "nothere system include.h", "user include"): 1, ("a.c", 2, "nothere user include.h", "system include"): 1,
                                         ("a.c", 3, "nothere it's.h", "user include"): 1, ("a.c", 4, "o'neil's nothere.h", "system include"): 1})
             got = collections.Counter()
